@@ -8,6 +8,8 @@
 -/
 import XzVerif.Lemmas.XzDecodeStream
 import XzVerif.Lemmas.XzDecodeFunctional
+import XzVerif.Lemmas.XzComplete
+import XzVerif.Lemmas.XzStd
 
 namespace XzVerif.C03Container
 open XzVerif XzVerif.Container XzVerif.XzDecode
@@ -56,19 +58,100 @@ theorem xz_decode_functional (E : Env) (fl : Flags) (b : List UInt8) (cap : Nat)
     (h₁ : ValidXz E fl b cap o₁ n₁) (h₂ : ValidXz E fl b cap o₂ n₂) : o₁ = o₂ ∧ n₁ = n₂ :=
   ValidXz_functional h₁ h₂
 
-/-- Completeness (`ValidXz b out n → xzDecode b = ok out n`) is not proved here; it would make `ValidXz` an exact
-    characterisation.  What stands in for it: the model is run against the real decoder on valid files from the real
-    encoder and on every single-fault variant of them (./check C05, ./check C03). -/
-def xz_decode_complete_statement : Prop :=
-  ∀ (E : Env) (fl : Flags) (b : List UInt8) (cap : Nat) (out : List UInt8) (n : Nat),
-    ValidXz E fl b cap out n →
-    (xzDecode E fl b cap).ret = .streamEnd ∧ (xzDecode E fl b cap).out = out ∧ (xzDecode E fl b cap).consumed = n
-
 /-- `xz_decode_complete_partial`: the decoder and the grammar can never disagree on an accepted input — if the decoder
     accepts, any grammatical reading of the same bytes has the decoder's output and length. -/
 theorem xz_decode_complete_partial (E : Env) (fl : Flags) (b : List UInt8) (cap : Nat) (out : List UInt8) (n : Nat)
     (hv : ValidXz E fl b cap out n) (h : (xzDecode E fl b cap).ret = .streamEnd) :
     (xzDecode E fl b cap).out = out ∧ (xzDecode E fl b cap).consumed = n :=
   ValidXz_functional (xz_decode_sound E fl b cap h) hv
+
+/-! ## The declarative grammar: "exactly when the specification defines the string as valid"
+
+  `ValidXz` above describes a Block through the executable Block decoder (`BlocksRun.block` has `blockDecode … = b`,
+  `b.ret = .streamEnd` among its premises), so `xz_decode_sound` is partly circular at Block level.  `DValidXz`
+  (Lemmas/XzGrammar.lean) is a grammar that does not mention the Block decoder: a Block is
+    header bytes that parse as a Block Header (field parser `blockHeaderDecodeWith`: size byte, flags, optional sizes, Filter
+    Flags, zero Header Padding, CRC32) with a valid chain ∥ Compressed Data `c` that the PAYLOAD decoder maps to `o`
+    (`E.payload filters c allowance = ⟨LZMA_STREAM_END, o, |c|⟩`: a premise about the payload only, on exactly the bytes `c`) ∥
+    size fields, when present, equal `|c|`, `|o|` ∥ Block Padding = `(4 − |c| mod 4) mod 4` zero bytes ∥ Check = `check_size`
+    bytes, equal to `E.check id o` when the ID is supported and LZMA_IGNORE_CHECK is off ∥ numeric limits of the format
+    (`BlockLimits`: Compressed Data not empty, Unpadded Size ≤ LZMA_VLI_MAX & ~3, Uncompressed Size ≤ LZMA_VLI_MAX, running totals
+    within the limits `lzma_index_hash_append` enforces: Σ sizes ≤ LZMA_VLI_MAX, Index ≤ 16 GiB, Stream ≤ LZMA_VLI_MAX);
+  a Stream is Stream Header ∥ Blocks ∥ Index = `indexEncode` of the Blocks' size pairs ∥ Stream Footer (`FooterFacts`); a file is
+  one Stream (no LZMA_CONCATENATED) or Streams with Stream Padding in multiples of four zero bytes.
+  The decoder accepts EXACTLY these strings, with exactly this output and length.  The output capacity needs no side condition:
+  the grammar is indexed by it (each Block's payload premise is stated for that Block's output allowance). -/
+
+/-- **block_decode_exact (⇒).**  An accepted Block is a declarative Block (`DBlock`): the Compressed Data is the first
+    `compressed` bytes, followed by zero Block Padding, the Check field and the rest. -/
+theorem block_decode_sound_decl (E : Env) (hloc : PayloadLocal E) (hbd : PayloadBounded E) (check : Nat) (ign : Bool) (hs : Nat)
+    (h : BlockHeader) (X : List UInt8) (cap : Nat) (hb : (blockDecode E check ign hs h X cap).ret = .streamEnd) :
+    let b := blockDecode E check ign hs h X cap
+    b.compressed ≤ X.length ∧
+    X = X.take b.compressed ++ List.replicate (blockPadLen b.compressed) 0
+          ++ (X.drop (b.compressed + blockPadLen b.compressed)).take (if check = 0 then 0 else checkSize check)
+          ++ X.drop b.consumed ∧
+    DBlock E check ign h cap (X.take b.compressed) b.out (List.replicate (blockPadLen b.compressed) 0)
+      ((X.drop (b.compressed + blockPadLen b.compressed)).take (if check = 0 then 0 else checkSize check)) :=
+  blockDecode_sound_decl E hloc hbd check ign hs h X cap hb
+
+/-- **block_decode_exact (⇐).**  A declarative Block whose Compressed Data respects the decoder's size limit is accepted, with
+    the Block's output, consuming exactly the Block. -/
+theorem block_decode_complete (E : Env) (hloc : PayloadLocal E) (check : Nat) (ign : Bool) (hs : Nat) (h : BlockHeader)
+    (cap : Nat) (c o pad chk rest : List UInt8) (D : DBlock E check ign h cap c o pad chk)
+    (hlim : c.length ≤ compressedLimit hs check h.compressedSize) :
+    blockDecode E check ign hs h (c ++ pad ++ chk ++ rest) cap
+      = { ret := .streamEnd, out := o, consumed := c.length + pad.length + chk.length, compressed := c.length } :=
+  blockDecode_complete E hloc check ign hs h cap c o pad chk rest D hlim
+
+/-- **xz_decode_sound (declarative).**  Acceptance implies the declarative grammar, including the numeric limits. -/
+theorem xz_decode_sound_decl (E : Env) (hloc : PayloadLocal E) (hbd : PayloadBounded E) (fl : Flags) (b : List UInt8) (cap : Nat)
+    (h : (xzDecode E fl b cap).ret = .streamEnd) :
+    DValidXz E fl b cap (xzDecode E fl b cap).out (xzDecode E fl b cap).consumed :=
+  xzDecode_sound_decl E hloc hbd fl b cap h
+
+/-- **xz_decode_complete** (formerly the unproved `xz_decode_complete_statement`, now for the declarative grammar): a
+    grammatical file is accepted with the grammar's output and length. -/
+theorem xz_decode_complete (E : Env) (hloc : PayloadLocal E) (fl : Flags) (b : List UInt8) (cap : Nat) (out : List UInt8) (n : Nat)
+    (V : DValidXz E fl b cap out n) :
+    (xzDecode E fl b cap).ret = .streamEnd ∧ (xzDecode E fl b cap).out = out ∧ (xzDecode E fl b cap).consumed = n :=
+  xzDecode_complete E hloc fl b cap out n V
+
+/-- **xz_decode_exact.**  The decoder accepts a byte string with output `out` and length `n` exactly when the string is valid per
+    the declarative grammar with that output and length. -/
+theorem xz_decode_exact (E : Env) (hloc : PayloadLocal E) (hbd : PayloadBounded E) (fl : Flags) (b : List UInt8) (cap : Nat)
+    (out : List UInt8) (n : Nat) :
+    ((xzDecode E fl b cap).ret = .streamEnd ∧ (xzDecode E fl b cap).out = out ∧ (xzDecode E fl b cap).consumed = n)
+      ↔ DValidXz E fl b cap out n := by
+  constructor
+  · rintro ⟨h1, h2, h3⟩
+    have := xzDecode_sound_decl E hloc hbd fl b cap h1
+    rw [h2, h3] at this
+    exact this
+  · exact xzDecode_complete E hloc fl b cap out n
+
+/-- … for the concrete decoder model (raw LZMA1/LZMA2 chains, CRC32/CRC64/SHA-256): no hypotheses. -/
+theorem xz_decode_exact_std (fl : Flags) (b : List UInt8) (cap : Nat) (out : List UInt8) (n : Nat) :
+    ((xzDecode XzEnv.stdEnv fl b cap).ret = .streamEnd ∧ (xzDecode XzEnv.stdEnv fl b cap).out = out
+        ∧ (xzDecode XzEnv.stdEnv fl b cap).consumed = n)
+      ↔ DValidXz XzEnv.stdEnv fl b cap out n :=
+  xz_decode_exact XzEnv.stdEnv XzEnv.payloadLocal_std XzEnv.payloadBounded_std fl b cap out n
+
+/-! ### non-vacuity for the concrete decoder: tests/files/good-1-check-crc32.xz (two uncompressed LZMA2 chunks, CRC32) -/
+
+def good1 : List UInt8 :=
+  [253, 55, 122, 88, 90, 0, 0, 1, 105, 34, 222, 54, 2, 0, 33, 1, 8, 0, 0, 0, 216, 15, 35, 19, 1, 0, 5, 72, 101, 108, 108, 111,
+   10, 2, 0, 6, 87, 111, 114, 108, 100, 33, 10, 0, 67, 163, 162, 21, 0, 1, 36, 13, 48, 40, 223, 175, 144, 66, 153, 13, 1, 0, 0,
+   0, 0, 1, 89, 90]
+
+/-- the model of the real decoder accepts it: "Hello\nWorld!\n", 68 bytes -/
+example : xzDecode XzEnv.stdEnv {} good1
+    = { ret := .streamEnd, out := [72, 101, 108, 108, 111, 10, 87, 111, 114, 108, 100, 33, 10], consumed := 68 } := by
+  decide +kernel
+
+/-- … hence it is valid per the declarative grammar (soundness), and, conversely, completeness applied to that derivation gives
+    back the decoder's answer -/
+example : DValidXz XzEnv.stdEnv {} good1 UNLIMITED [72, 101, 108, 108, 111, 10, 87, 111, 114, 108, 100, 33, 10] 68 :=
+  (xz_decode_exact_std {} good1 UNLIMITED _ 68).1 (by decide +kernel)
 
 end XzVerif.C03Container
